@@ -53,7 +53,7 @@ def addrMatches (ruleIp ruleWc : Option Ip) (ip : Ip) : Bool :=
 def portMatches (rulePort : Option Nat) (pktPort : Option Nat) : Bool :=
   match rulePort with
   | none => true
-  | some p => pktPort == some p
+  | some p => some p == pktPort
 
 def protoMatches (ruleProto : Option Proto) (p : Proto) : Bool :=
   match ruleProto with
